@@ -11,6 +11,7 @@ pub fn oracle(o: &Outcome, s: &Scen) -> Option<(String, serde_json::Value)> {
   match s.kind {
     Kind::Subject => common_order(o),
     Kind::Pipe(_) if s.name == "share_threads" => common_order(o),
+    Kind::Shared => share_oracle(o),
     Kind::Pipe(_) if s.name == "merge_all_threads" => flatten_oracle(o, s),
     Kind::Pipe(_) if two_input_name(s).is_some() => linearizable(o, s, two_input_name(s).unwrap()),
     _ => None,
